@@ -1,5 +1,6 @@
 import Ivg.Lemmas.RendererVM
-import Ivg.Gen.Tie
+import Ivg.Gen.Tie.Dc1
+import Ivg.Gen.Tie.RendererFields
 import Ivg.Obligations
 /-!
 # C04 — the Renderer fills each path with the paint the specification's machine prescribes
